@@ -33,9 +33,17 @@ def f(x):
     return float(np.ravel(x)[0])
 
 
-def build(sc):
+def build(sc, route='direct'):
+    """route: how the SAME prescription reaches an Optic object (lensgen.build_via): 'direct' keyword add_surface calls,
+    'handbuilt' ready-made Surface objects, 'reuse' an Optic that held another lens and was reset(), 'roundtrip'
+    to_dict -> Optic.from_dict.  The replay / reference lenses are always built 'direct'."""
+    import random as _random
     with quiet():
-        o = lensgen.build(copy.deepcopy(sc['lens']))   # the geometry keeps the caller's coefficient list
+        spec = copy.deepcopy(sc['lens'])               # the geometry keeps the caller's coefficient list
+        if route and route != 'direct' and hasattr(lensgen, 'build_via'):
+            o = lensgen.build_via(spec, route, _random.Random(sc.get('route_seed', 0)))
+        else:
+            o = lensgen.build(spec)
         for (src, attr, tgt, scale, off) in sc.get('pickups', []):
             o.pickups.add(src, attr, tgt, scale=scale, offset=off)
         for (ty, idx, h) in sc.get('solves', []):
@@ -208,6 +216,19 @@ def bounded_reference(sc, which, values, targets):
         return {'x': float(r.x), 'merit': m, 'ops': [f(op.value) for op in ops], 'lo': lo, 'hi': hi}
 
 
+def presc(o, sc):
+    """is the object the prescription that was entered (independent running sums / entered media / radii / conics)?
+    Lenses with solves have a solved image distance that is not in the entered prescription: skipped."""
+    if sc.get('solves') or not hasattr(lensgen, 'prescription_problems'):
+        return []
+    if sc.get('pickups') and not sc.get('dependent'):
+        return []       # random pickups overrule the entered radius (only the 'dependent' classes enter consistent ones)
+    try:
+        return lensgen.prescription_problems(sc['lens'], o)
+    except Exception as e:   # noqa
+        return [{'kind': 'prescription', 'quantity': 'oracle raised ' + type(e).__name__}]
+
+
 def sag_deviation(o, sc):
     """max |sag(optiland geometry) - sag(prescribed coefficients of the scenario)| over sample points, for every
     freeform / aspheric surface (independent evaluation: tools/oracles.py)"""
@@ -237,6 +258,46 @@ def sag_deviation(o, sc):
     return worst
 
 
+def ray_operands(o, sc):
+    """operand values recomputed from the traced rays (public Optic.trace / trace_generic) for the ray operands:
+    rms_spot_size = root mean square distance of ALL image points (every requested wavelength) from the centroid of the
+    primary wavelength, undefined (NaN) as soon as one ray has no image point; real_x/y_intercept = the traced point.
+    None for operands that are not ray operands."""
+    out = []
+    with quiet():
+        for ty, kw in sc['operands']:
+            try:
+                if ty == 'rms_spot_size':
+                    ws = [float(w) for w in o.wavelengths.get_wavelengths()] if kw['wavelength'] == 'all' else [kw['wavelength']]
+                    prim = o.primary_wavelength if kw['wavelength'] == 'all' else kw['wavelength']
+                    pts = {}
+                    for w in ws:
+                        o.trace(kw['Hx'], kw['Hy'], w, kw['num_rays'], kw['distribution'])
+                        sg = o.surface_group
+                        pts[w] = (np.array(sg.x[kw['surface_number'], :], dtype=float).ravel().copy(),
+                                  np.array(sg.y[kw['surface_number'], :], dtype=float).ravel().copy())
+                    allx = np.concatenate([pts[w][0] for w in ws])
+                    ally = np.concatenate([pts[w][1] for w in ws])
+                    nfail = int(np.sum(~np.isfinite(allx) | ~np.isfinite(ally)))
+                    if nfail:
+                        out.append({'v': float('nan'), 'failed': nfail, 'rays': int(allx.size)})
+                        continue
+                    cx, cy = float(np.sum(pts[prim][0]) / pts[prim][0].size), float(np.sum(pts[prim][1]) / pts[prim][1].size)
+                    out.append({'v': float(math.sqrt(float(np.sum((allx - cx) ** 2 + (ally - cy) ** 2)) / allx.size)),
+                                'failed': 0, 'rays': int(allx.size)})
+                elif ty in ('real_x_intercept', 'real_y_intercept'):
+                    o.trace_generic(kw['Hx'], kw['Hy'], kw['Px'], kw['Py'], kw['wavelength'])
+                    sg = o.surface_group
+                    arr = sg.x if ty == 'real_x_intercept' else sg.y
+                    v = f(arr[kw['surface_number'], 0])
+                    out.append({'v': v, 'failed': int(v != v), 'rays': 1})
+                else:
+                    out.append(None)
+            except Exception as e:   # noqa
+                out.append({'error': type(e).__name__})
+    return out
+
+
 def mk_sampler(sp):
     k = sp[0]
     if k == 'scalar':
@@ -264,7 +325,7 @@ def add_operands(t_or_list, sc, o, targets=None):
 
 def setup(sc, info=None):
     RC[0], RC[1] = sc.get('c2shape', [0, 0])
-    o = build(sc)
+    o = build(sc, sc.get('route', 'direct'))
     t = Tolerancing(o, method=sc.get('method', 'generic'), tol=sc.get('tol', 1e-5))
     add_operands(t, sc, o)
     if info is not None:
@@ -273,6 +334,7 @@ def setup(sc, info=None):
         info['built'] = snapshot(o, sc['WS'], info['glass'])
         info['ops_built'] = [f(v) for v in t.evaluate()]
         info['sag_built'] = sag_deviation(o, sc)
+        info['presc_built'] = presc(o, sc)
         info['optic'] = o
     samplers = [mk_sampler(p['sampler']) for p in sc['perts']]
     for (a, b) in sc.get('share', []):
@@ -328,6 +390,7 @@ def run_analysis(sc, observe=True):
     res['nominal'] = info['built']
     res['ops_built'] = info['ops_built']
     res['sag_built'] = info['sag_built']
+    res['presc_built'] = info['presc_built']
     res['after_setup'] = snapshot(o, WS, gl)
     res['setup_diff'] = snap_diff(res['nominal'], res['after_setup'])
     res['sag_after_setup'] = sag_deviation(o, sc)
@@ -415,12 +478,14 @@ def run_analysis(sc, observe=True):
     res['steps'] = steps
     res['after_run'] = snapshot(o, WS, gl)
     res['sag_after_run'] = sag_deviation(o, sc)
+    res['presc_after_run'] = presc(o, sc)
     res['dict_diff_run'] = [x for stp in steps for x in stp.get('dict_diff_run', [])]
     res['diff_run_steps'] = [x for stp in steps for x in stp.get('diff_run', [])]
     with quiet():
         t.reset()
     res['after_reset'] = snapshot(o, WS, gl)
     res['sag_after_reset'] = sag_deviation(o, sc)
+    res['presc_after_reset'] = presc(o, sc)
     res['dict_diff_reset'] = dict_diff(d_nom, dict_of(o))
     res['to_dict_ok'] = '__to_dict_error__' not in d_nom
     for tr in trials:
@@ -459,6 +524,8 @@ def fresh_eval(sc, which, values, targets, variant=()):
     ops = add_operands(None, sc, o, targets)
     with quiet():
         for j, v in zip(which, values):
+            if 'intcoef' in variant and sc['perts'][j]['type'] in ('polynomial_coeff', 'chebyshev_coeff'):
+                v = float(int(v))                # what an integer coefficient array keeps of the written value
             raw_set(o, sc['perts'][j], v)        # Optic.set_* / direct writes: no Variable object for the perturbations
         if sc['comps']:
             co = CompensatorOptimizer(method=sc.get('method', 'generic'), tol=sc.get('tol', 1e-5))
@@ -467,7 +534,11 @@ def fresh_eval(sc, which, values, targets, variant=()):
             co.operands = ops
             co.run()
         vals = [f(op.value) for op in ops]
+    LAST['ray_ops'] = ray_operands(o, sc) if not variant else None
     return vals, snapshot(o, sc['WS'], {})
+
+
+LAST = {}
 
 
 def independent_stream(sc):
@@ -531,11 +602,11 @@ for sc in job['scenarios']:
                         if abs(a - b) > 0.02 * eff:
                             ok = False
             # where the lens at evaluation differs from the freshly built one (attribution of state-level mismatches)
-            e = {'fresh': fr, 'ok': ok, 'resolved': resolved, 'state_diff': snap_diff(fsnap, tr['snap'], 1e-6 if sc['comps'] else 1e-9),
+            e = {'fresh': fr, 'ok': ok, 'resolved': resolved, 'ray_ops': LAST.get('ray_ops'), 'state_diff': snap_diff(fsnap, tr['snap'], 1e-6 if sc['comps'] else 1e-9),
                  'nominal_diff': snap_diff(res['nominal'], tr['snap'])}
             if not ok:
                 e['explained'] = None
-                for variant in (('d23',), ('plane',), ('d23', 'plane')):
+                for variant in (('d23',), ('plane',), ('d23', 'plane'), ('intcoef',)):
                     try:
                         fv, _ = fresh_eval(sc, tr['which'], tr['values'], res['targets'], variant)
                     except Exception:
